@@ -176,10 +176,10 @@ Proof.
   use_be_unbe [z; z0; z1; z2; z3; z4]. use_be_unbe [z5; z6; z7; z8]. use_be_unbe [z15; z16]. use_be_unbe [z26; z27].
   rewrite Uutc, T1, Hold, A1, T2. norm_rhs.
   split; [reflexivity|]. split; [reflexivity|]. split; [reflexivity|].
-  unfold cq_ok, is_byte, tsrc_ok, acc_ok. cbn [cq_class cq_acc cq_var length].
-  repeat split; try lia; try bytes_solve.
-  - apply acc_from_ok. lia.
-  - apply tsrc_from_ok. lia.
+  unfold cq_ok, is_byte. cbn [cq_class cq_acc cq_var length].
+  split; [exact Hts|]. split; [lia|]. split; [lia|].
+  split; [split; [lia|split; [apply acc_from_ok; lia|lia]]|].
+  split; [lia|]. split; [bytes_solve|]. split; [reflexivity|]. split; [lia|apply tsrc_from_ok; lia].
 Qed.
 
 (* all ten *)
